@@ -30,6 +30,20 @@ type c14File struct {
 	Cache           []c14Piece `json:"cache,omitempty"`
 	OnDisk, InCache bool
 	EmptyDisk       bool `json:"emptydisk,omitempty"` // a zero-byte file on disk
+	Spell           int  `json:"spell,omitempty"`     // how the path given to ParseTemplateAndCache is spelled (1: dir/./name, 2: dir//name, 3: dir/zz/../name)
+}
+
+// regPath is the path a cached source is registered under: the file's path, not always in its shortest spelling
+func (f c14File) regPath(dir string) string {
+	switch f.Spell {
+	case 1:
+		return dir + "/./" + f.Name
+	case 2:
+		return dir + "//" + f.Name
+	case 3:
+		return dir + "/zz/../" + f.Name
+	}
+	return filepath.Join(dir, f.Name)
 }
 
 type c14Case struct {
@@ -170,7 +184,7 @@ var c14Graph = hx.Define("c14.graph", func(c *c14Case, s *hx.Sub) *hx.Violation 
 			}
 		}
 		if f.InCache && !c.Late {
-			if _, perr := eng.ParseTemplateAndCache([]byte(c14Source(f.Cache, vars)), filepath.Join(dir, f.Name), 1); perr != nil {
+			if _, perr := eng.ParseTemplateAndCache([]byte(c14Source(f.Cache, vars)), f.regPath(dir), 1); perr != nil {
 				return hx.V("harness-error", "cached source does not parse: %v", perr)
 			}
 		}
@@ -199,7 +213,7 @@ var c14Graph = hx.Define("c14.graph", func(c *c14Case, s *hx.Sub) *hx.Violation 
 			}
 			for _, f := range c.Files {
 				if f.InCache {
-					if _, perr := eng.ParseTemplateAndCache([]byte(c14Source(f.Cache, vars)), filepath.Join(dir, f.Name), 1); perr != nil {
+					if _, perr := eng.ParseTemplateAndCache([]byte(c14Source(f.Cache, vars)), f.regPath(dir), 1); perr != nil {
 						got.Err = perr
 						return
 					}
@@ -499,6 +513,9 @@ func TestC14(t *testing.T) {
 				f.InCache, f.Cache = true, mk(name, next, "/cache")
 			default:
 				f.OnDisk, f.Disk = true, mk(name, next, "/disk")
+			}
+			if f.InCache && rapid.IntRange(0, 3).Draw(t, "spelled") == 0 {
+				f.Spell = rapid.IntRange(1, 3).Draw(t, "spell")
 			}
 			c.Files = append(c.Files, f)
 		}
